@@ -129,7 +129,18 @@ static void c01(Sink &sink, const Args &a, long c)
     }
     uint64_t wseed = hmix(hmix(splitmix(a.seed), 0xC01), widx);
     ompl::RNG::setSeed(caseSeed(a, c, 1) % 1000000000ULL + 1);
-    auto w = makeWorld(wseed, kind, hostile, dirBlock ? -2 : -1);
+    // every fourth world of the main block has a narrow passage (a wall with one slit between the start and the goal corner)
+    const bool narrow = !dirBlock && widx % 4 == 3;
+    // ... and every fourth is cluttered with many small obstacles (whatever the kind of space)
+    const bool cluttered = !dirBlock && widx % 4 == 2;
+    auto w = makeWorld(wseed, kind, hostile, dirBlock ? -2 : narrow ? -3 : cluttered ? -4 : -1);
+    if (cluttered) sink.count("cases_with_cluttered_world");
+    if (narrow)
+    {
+        sink.count("cases_with_narrow_passage");
+        sink.maxstat("narrowest_slit_solved_or_not", -w->slit);
+        if (getenv("VERIF_DEBUG")) fprintf(stderr, "DBG narrow slit=%g obst=%zu kind=%d\n", w->slit, w->obst.size(), kind);
+    }
     Rng rng(caseSeed(a, c));
     sink.subject(pi.name);
     if (dirBlock) sink.count("direction_block_cases");
@@ -168,6 +179,7 @@ static void c01(Sink &sink, const Args &a, long c)
     {
         sink.count("solved:" + pi.name);
         sink.count(std::string("solved_kind:") + KIND_NAME[kind]);
+        if (narrow) sink.count("solved_through_narrow_passage");
     }
     else
         sink.count("unsolved:" + pi.name);
